@@ -26,7 +26,7 @@ from __future__ import annotations
 import ast
 
 from ..model import AnchorError, norm, walk_no_nested, parent_map
-from ..util import cfg_of, call_attr, local_single_defs, expand_local
+from ..util import cfg_of, call_attr, local_single_defs, expand_local, canon_text
 from ..cfg import facts_at, handler_is_catch_all
 
 EXPLANATION = __doc__
@@ -34,7 +34,7 @@ COLLECTIONS = {"openpectus.lang.exec.tags:TagValueCollection", "openpectus.lang.
                "openpectus.lang.exec.commands:CommandCollection"}
 # (function short name, call text) -> reason; sites whose key cannot be blank for a reason outside the function
 JUSTIFIED_BLANK = {
-    ("CommandCheckAnalyzer.check_command_node", "self.commands.has(name)"):
+    ("CommandCheckAnalyzer.check_command_node", "self.commands.has(<local>)"):
         "instruction_name is non-empty for every node class except ErrorInstructionNode, for which the whole non-blank "
         "line is adopted as name (blank lines parse to BlankNode) - confirmed by exhaustive probing of short lines",
 }
@@ -138,7 +138,7 @@ def run(ctx) -> None:
                 inst = f"{f.short}: {norm(x)} key not blank"
                 if blank_guard:
                     ctx.ok("R19d", inst)
-                elif (f.short, norm(x)) in JUSTIFIED_BLANK:
+                elif (f.short, canon_text(x, f)) in JUSTIFIED_BLANK:
                     ctx.ok("R19d", inst + " (justified)", trivial=True)
                 else:
                     ctx.fail("R19d", f, x, inst, f"{coll}.{call_attr(x)}({key}) raises ValueError for a None/blank name and no "
